@@ -77,8 +77,26 @@ pub fn set_plan(plan: IoPlan) {
 static LEDGER_ON: std::sync::atomic::AtomicBool = std::sync::atomic::AtomicBool::new(false);
 static LEDGER: std::sync::Mutex<Vec<(usize, usize)>> = std::sync::Mutex::new(Vec::new());
 
+/// Ranges that were stream mappings, have been unmapped, and have not been
+/// mapped again through this seam since. An munmap that hits one releases
+/// memory its caller no longer owns (a second unmap of the same range): by
+/// then the address may belong to another thread's fresh mapping.
+static GRAVE: std::sync::Mutex<Vec<(usize, usize)>> = std::sync::Mutex::new(Vec::new());
+static DOUBLE_UNMAPS: std::sync::Mutex<Vec<(usize, usize)>> = std::sync::Mutex::new(Vec::new());
+
+pub fn double_unmaps() -> Vec<(usize, usize)> {
+    DOUBLE_UNMAPS.lock().unwrap_or_else(|e| e.into_inner()).clone()
+}
+
+fn overlap(v: &[(usize, usize)], addr: usize, len: usize) -> Vec<(usize, usize)> {
+    let end = addr + len;
+    v.iter().filter_map(|&(a, l)| { let lo = a.max(addr); let hi = (a + l).min(end); if lo < hi { Some((lo, hi - lo)) } else { None } }).collect()
+}
+
 pub fn ledger_start() {
     LEDGER.lock().unwrap_or_else(|e| e.into_inner()).clear();
+    GRAVE.lock().unwrap_or_else(|e| e.into_inner()).clear();
+    DOUBLE_UNMAPS.lock().unwrap_or_else(|e| e.into_inner()).clear();
     LEDGER_ON.store(true, std::sync::atomic::Ordering::SeqCst);
 }
 
@@ -303,12 +321,26 @@ pub unsafe extern "C" fn mmap(addr: *mut c_void, len: size_t, prot: c_int, flags
     if armed() && r != -1 {
         track_map(r as usize, len);
     }
+    if r != -1 && ledger_on() {
+        // Whatever is mapped here now is owned again.
+        let mut g = GRAVE.lock().unwrap_or_else(|e| e.into_inner());
+        untrack(&mut g, r as usize, len);
+    }
     if r != -1 && flags & libc::MAP_SHARED != 0 && ledger_on() {
         let mut l = LEDGER.lock().unwrap_or_else(|e| e.into_inner());
         untrack(&mut l, r as usize, len);
         l.push((r as usize, len));
     }
     if r == -1 { libc::MAP_FAILED } else { r as *mut c_void }
+}
+
+/// # Safety
+/// C ABI replacement for mmap64(2) (the name the standard library calls, e.g.
+/// for a thread's signal stack): same thing on 64-bit Linux.
+#[unsafe(no_mangle)]
+pub unsafe extern "C" fn mmap64(addr: *mut c_void, len: size_t, prot: c_int, flags: c_int, fd: c_int, off: off_t) -> *mut c_void {
+    // SAFETY: forwarding.
+    unsafe { mmap(addr, len, prot, flags, fd, off) }
 }
 
 /// # Safety
@@ -319,7 +351,14 @@ pub unsafe extern "C" fn munmap(addr: *mut c_void, len: size_t) -> c_int {
     let r = unsafe { libc::syscall(libc::SYS_munmap, addr, len) } as c_int;
     if r == 0 && ledger_on() {
         let mut l = LEDGER.lock().unwrap_or_else(|e| e.into_inner());
+        let mut g = GRAVE.lock().unwrap_or_else(|e| e.into_inner());
+        let again = overlap(&g, addr as usize, len);
+        if !again.is_empty() {
+            DOUBLE_UNMAPS.lock().unwrap_or_else(|e| e.into_inner()).extend(again);
+        }
+        let released = overlap(&l, addr as usize, len);
         untrack(&mut l, addr as usize, len);
+        g.extend(released);
     }
     if armed() {
         STATS.with(|s| {
